@@ -87,9 +87,10 @@ CLAIMED = {
   note="PARTIAL: nested scopes are covered by the executable Spec (table) and the handler model by correspondence only "
        "(table_single_scope proved; table_sibling_scopes_partial is a witness); the composition matcher+store+cache = icCheck is tied by "
        "correspondence, not proved; attribute-target paths, unions and .// followed by several steps are outside the proved matcher classes "
-       "(the real matcher deviates there: recorded findings). The model follows the code as it is after the proposed fixes/c10-*.diff in three "
-       "places (sibling-scope value stores, overlapping selector unions, keyref without references); until they are applied the exact error "
-       "counts of cases in those zones are not compared with the model (the Spec judgement is unaffected). xsi:type, union/list typed fields, "
+       "(the real matcher deviates there: recorded findings). The model follows the code as it is after the five C10 fix: commits in /repo (sibling-scope value "
+       "stores, overlapping selector unions, keyref without references, unprefixed QName values, 'p:*' first step); a zone of cases is "
+       "excluded from the count-for-count model comparison only while its fixed witness still deviates from the Spec (none on the current "
+       "tree: evidence key zones_not_compared_with_model; the Spec judgement is never suspended). xsi:type, union/list typed fields, "
        "default element values, XSD 1.1 not modelled. Trusted: Lean kernel + propext/Classical.choice/Quot.sound; XV.Spec.Identity as transcribed "
        "(nilled element value taken as equal to itself only); DatatypeValidator::compare = value equality (C09); translator; harness, generators "
        "and the Python renderer.",
